@@ -3,7 +3,7 @@
 sources and record, for each, whether the translator refuses (exit 3) or the regenerated Lean
 changes and `SSJ.Proofs.GenLoops` stops compiling.  Never touches /repo.
 
-usage: robustness_check.py <repo_root> <lean_project_dir> [2|3|all]     (stage-2 mutants, stage-3 mutants, both)
+usage: robustness_check.py <repo_root> <lean_project_dir> [2|3|4|all]     (stage-2 / stage-3 / stage-4 mutants, or all)
 """
 import os, shutil, subprocess, sys, tempfile, json
 
@@ -147,14 +147,42 @@ MUTANTS3 = [
     ('G01 build_dict_from_table: `and` -> `or`', 'py_stringsimjoin/utils/generic_helper.py', "if remove_null and pd.isnull(row[join_attr_index]):\n            continue\n        table_dict", "if remove_null or pd.isnull(row[join_attr_index]):\n            continue\n        table_dict"),
 ]
 
+FLP = 'py_stringsimjoin/filter/filter.py'
+AMP = 'py_stringsimjoin/matcher/apply_matcher.py'
+PRO = 'py_stringsimjoin/profiler/profiler.py'
+MUTANTS4 = [
+    ('F01 candset split: `not` dropped', FLP, "valid_rows.append(not filter_object.filter_pair(", "valid_rows.append(filter_object.filter_pair("),
+    ('F02 candset split: l_id read from the right key column', FLP, "        l_id = candset_row[candset_l_key_attr_index]\n        r_id = candset_row[candset_r_key_attr_index]\n\n        l_row = ltable_dict[l_id]\n        r_row = rtable_dict[r_id]\n\n        valid_rows", "        l_id = candset_row[candset_r_key_attr_index]\n        r_id = candset_row[candset_r_key_attr_index]\n\n        l_row = ltable_dict[l_id]\n        r_row = rtable_dict[r_id]\n\n        valid_rows"),
+    ('F03 candset split: dict.get instead of d[k]', FLP, "        l_row = ltable_dict[l_id]\n        r_row = rtable_dict[r_id]\n\n        valid_rows", "        l_row = ltable_dict.get(l_id)\n        r_row = rtable_dict[r_id]\n\n        valid_rows"),
+    ('F04 candset split: remove_null=True', FLP, "                                        l_filter_attr_index,\n                                        remove_null=False)", "                                        l_filter_attr_index,\n                                        remove_null=True)"),
+    ('A01 matcher: allow_missing negated', AMP, "            if allow_missing:\n                allow_pair = True", "            if not allow_missing:\n                allow_pair = True"),
+    ('A02 matcher: NaN score not set for missing pairs', AMP, "                allow_pair = True\n                sim_score = np.NaN\n", "                allow_pair = True\n"),
+    ('A03 matcher: left tokens looked up with the right id', AMP, "l_apply_col_value = l_tokens[l_id]", "l_apply_col_value = l_tokens[r_id]"),
+    ('A04 matcher: _id not inserted', AMP, "                output_row.insert(0, candset_row[0])\n", ""),
+    ('A05 matcher: comparison arguments swapped', AMP, "allow_pair = comp_fn(sim_score, threshold)", "allow_pair = comp_fn(threshold, sim_score)"),
+    ('A06 matcher: cache used when only one side is cached', AMP, "if l_tokens is not None and r_tokens is not None:", "if l_tokens is not None or r_tokens is not None:"),
+    ('A07 matcher: _id appended to the header', AMP, "output_header.insert(0, '_id')", "output_header.append('_id')"),
+    ('A08 matcher: missing test with `and`', AMP, "if pd.isnull(l_apply_col_value) or pd.isnull(r_apply_col_value):", "if pd.isnull(l_apply_col_value) and pd.isnull(r_apply_col_value):"),
+    ('A09 matcher: right value tokenized from the left value', AMP, "r_apply_col_value = tokenizer.tokenize(r_apply_col_value)", "r_apply_col_value = tokenizer.tokenize(l_apply_col_value)"),
+    ('G01 generate_tokens: null rows selected', AMP, "table_nonnull = table[pd.notnull(table[join_attr])]", "table_nonnull = table[pd.isnull(table[join_attr])]"),
+    ('G02 generate_tokens: keys and values swapped', AMP, "    return dict(zip(table_nonnull[key_attr],\n                    table_nonnull[join_attr].apply(tokenizer.tokenize)))", "    return dict(zip(table_nonnull[join_attr].apply(tokenizer.tokenize),\n                    table_nonnull[key_attr]))"),
+    ('R01 profiler: missing counts as two values', PRO, "            unique_values += 1", "            unique_values += 2"),
+    ('R02 profiler: >= 0', PRO, "        unique_values = input_table[attr].nunique(dropna=True)\n        if missing_values > 0:", "        unique_values = input_table[attr].nunique(dropna=True)\n        if missing_values >= 0:"),
+    ('R03 profiler: unique percentage rounded to 1 digit', PRO, "        unique_percent = round((float(unique_values) / float(num_rows)) * 100,\n                               2)", "        unique_percent = round((float(unique_values) / float(num_rows)) * 100,\n                               1)"),
+    ('R04 profiler: key test with `or`', PRO, "if unique_values == num_rows and missing_values == 0:", "if unique_values == num_rows or missing_values == 0:"),
+    ('R05 _format_statistic: bracket', PRO, "return ''.join([str(stat), ' (', str(stat_percent), '%)'])", "return ''.join([str(stat), ' [', str(stat_percent), '%)'])"),
+    ('R06 profiler: attributes not validated', PRO, "            validate_attr(attr, input_table.columns,\n                          'profile attribute', 'input table')", "            pass"),
+    ('R07 profiler: missing percentage of the unique count', PRO, "missing_percent = round((float(missing_values) / float(num_rows)) * 100,", "missing_percent = round((float(unique_values) / float(num_rows)) * 100,"),
+]
+
 
 def main():
     repo, lean = sys.argv[1], sys.argv[2]
     which = sys.argv[3] if len(sys.argv) > 3 else 'all'
-    mutants = {'2': MUTANTS, '3': MUTANTS3, 'all': MUTANTS + MUTANTS3}[which]
+    mutants = {'2': MUTANTS, '3': MUTANTS3, '4': MUTANTS4, 'all': MUTANTS + MUTANTS3 + MUTANTS4}[which]
     here = os.path.dirname(os.path.abspath(__file__))
     tr = os.path.join(here, 'py2lean2.py')
-    gens = [os.path.join(lean, 'SSJ', 'Gen', n) for n in ('Loops.lean', 'Loops2.lean')]
+    gens = [os.path.join(lean, 'SSJ', 'Gen', n) for n in ('Loops.lean', 'Loops2.lean', 'Loops3.lean')]
     orig = [open(g, encoding='utf-8').read() for g in gens]
     body = lambda t: t[t.index('import SSJ'):]
     results = []
@@ -183,7 +211,7 @@ def main():
                 else:
                     for g, t in zip(gens, texts):
                         open(g, 'w', encoding='utf-8').write(t)
-                    b = subprocess.run(['lake', 'build', 'SSJ.Proofs.GenLoops2'], cwd=lean, capture_output=True, text=True)
+                    b = subprocess.run(['lake', 'build', 'SSJ.Proofs.GenLoops3'], cwd=lean, capture_output=True, text=True)
                     if b.returncode == 0:
                         results.append((name, 'UNDETECTED: Lean changed but proofs still compile'))
                     else:
@@ -195,7 +223,7 @@ def main():
     finally:
         for g, o in zip(gens, orig):
             open(g, 'w', encoding='utf-8').write(o)
-        subprocess.run(['lake', 'build', 'SSJ.Proofs.GenLoops2'], cwd=lean, capture_output=True, text=True)
+        subprocess.run(['lake', 'build', 'SSJ.Proofs.GenLoops3'], cwd=lean, capture_output=True, text=True)
     bad = 0
     counts = {}
     for name, res in results:
